@@ -99,6 +99,9 @@ FORMULAS = {
             "Gen.production_max_is_code"],
     "C03": ["Gen.xOpt_is_code", "Gen.capacity_is_code", "Gen.cons_is_code", "Gen.cons_base_is_code", "Gen.production_max_is_code"],
     "C18": ["Gen.cons_is_code", "Gen.cons_base_is_code"],
+    "C04": ["Gen.deliverCell_is_code", "Gen.deliveries_are_code"],
+    "C05": ["Gen.stockUse_is_code", "Gen.stockUpdated_is_code", "Gen.deliveries_are_code"],
+    "C08": ["Gen.subBlock_is_code", "Gen.deliverCell_is_code"],
     "C07": ["Gen.capacity_is_code"],
     "C09": ["Gen.linear_is_code", "Gen.convexe_is_code", "Gen.convexe_scaled_is_code", "Gen.cellwise_linear_is_code",
             "Gen.cellwise_convexe_is_code", "Gen.cellwise_convexe_scaled_is_code"],
